@@ -36,6 +36,18 @@ func (g G) Str(n int) string {
 	return string(b)
 }
 
+// Len8: length of a string carried behind a one-byte length prefix: mostly small (0..small), every fourth time anywhere
+// in 0..255 with the boundary values over-represented (byte arithmetic on offsets wraps beyond 255 - header size).
+func (g G) Len8(small int) int {
+	if !g.Chance(1, 4) {
+		return g.Intn(small + 1)
+	}
+	if g.Chance(1, 2) {
+		return []int{127, 128, 200, 231, 232, 233, 240, 245, 250, 253, 254, 255}[g.Intn(12)]
+	}
+	return g.Intn(256)
+}
+
 // Raw: arbitrary bytes of length n.
 func (g G) Raw(n int) string { return string(g.Bytes(n)) }
 
@@ -336,13 +348,13 @@ func Cases(g G) []TCase {
 		tc := TCase{Name: fmt.Sprintf("T0x1210/dialect%d", d), Type: "T0x1210", ID: 0x1210, Ver: V13, Dialect: d, Val: t,
 			Mk: func() TwoWay { return &model.T0x1210{P9208AlarmSign: model.P9208AlarmSign{ActiveSafetyType: d}} }}
 		out = append(out, tc)
-		ip := g.Str(g.Intn(20))
+		ip := g.Str(g.Len8(20))
 		p := &model.P0x9208{ServerIPLen: byte(len(ip)), ServerAddr: ip, TcpPort: g.U16(), UdpPort: g.U16(), P9208AlarmSign: g.Sign(d), AlarmID: g.Fixed(32, true), Reserve: g.Bytes(g.Intn(17))}
 		out = append(out, TCase{Name: fmt.Sprintf("P0x9208/dialect%d", d), Type: "P0x9208", ID: 0x9208, Ver: V13, Dialect: d, Val: p,
 			Mk: func() TwoWay { return &model.P0x9208{P9208AlarmSign: model.P9208AlarmSign{ActiveSafetyType: d}} }})
 	}
 	{
-		nm := g.Raw(1 + g.Intn(80))
+		nm := g.Raw(max(1, g.Len8(80)))
 		add("T0x1211", "T0x1211", 0x1211, V13, &model.T0x1211{FileNameLen: byte(len(nm)), FileName: nm, FileType: g.U8(), FileSize: g.U32()}, func() TwoWay { return &model.T0x1211{} })
 		add("T0x1212", "T0x1212", 0x1212, V13, &model.T0x1212{T0x1211: model.T0x1211{FileNameLen: byte(len(nm)), FileName: nm, FileType: g.U8(), FileSize: g.U32()}}, func() TwoWay { return &model.T0x1212{} })
 	}
@@ -361,7 +373,7 @@ func Cases(g G) []TCase {
 	add("P0x8100", "P0x8100", 0x8100, V13, &model.P0x8100{RespondSerialNumber: g.U16(), Result: g.U8(), AuthCode: g.Raw(g.Intn(30))}, func() TwoWay { return &model.P0x8100{} })
 	add("P0x8801", "P0x8801", 0x8801, V13, &model.P0x8801{ChannelID: g.U8(), ShootCommand: g.U16(), PhotoIntervalOrVideoTime: g.U16(), SaveFlag: g.U8(), Resolution: g.U8(), VideoQuality: g.U8(), Intensity: g.U8(), Contrast: g.U8(), Saturation: g.U8(), Chroma: g.U8()}, func() TwoWay { return &model.P0x8801{} })
 	{
-		ip := g.Raw(g.Intn(30))
+		ip := g.Raw(g.Len8(30))
 		add("P0x9101", "P0x9101", 0x9101, V13, &model.P0x9101{ServerIPLen: byte(len(ip)), ServerIPAddr: ip, TcpPort: g.U16(), UdpPort: g.U16(), ChannelNo: g.U8(), DataType: g.U8(), StreamType: g.U8()}, func() TwoWay { return &model.P0x9101{} })
 		add("P0x9201", "P0x9201", 0x9201, V13, &model.P0x9201{ServerIPLen: byte(len(ip)), ServerIPAddr: ip, TcpPort: g.U16(), UdpPort: g.U16(), ChannelNo: g.U8(), MediaType: g.U8(), StreamType: g.U8(), MemoryType: g.U8(), PlaybackWay: g.U8(), PlaySpeed: g.U8(), StartTime: g.TS(), EndTime: g.TS()}, func() TwoWay { return &model.P0x9201{} })
 	}
@@ -370,7 +382,9 @@ func Cases(g G) []TCase {
 	add("P0x9202", "P0x9202", 0x9202, V13, &model.P0x9202{ChannelNo: g.U8(), PlayControl: g.U8(), PlaySpeed: g.U8(), DateTime: g.TS()}, func() TwoWay { return &model.P0x9202{} })
 	add("P0x9205", "P0x9205", 0x9205, V13, &model.P0x9205{ChannelNo: g.U8(), StartTime: g.TS(), EndTime: g.TS(), AlarmFlag: g.U64(), MediaType: g.U8(), StreamType: g.U8(), StorageType: g.U8()}, func() TwoWay { return &model.P0x9205{} })
 	{
-		a, u, pw, pa := g.Raw(g.Intn(20)), g.Raw(g.Intn(20)), g.Raw(g.Intn(20)), g.Raw(g.Intn(20))
+		ls := []int{g.Intn(20), g.Intn(20), g.Intn(20), g.Intn(20)}
+		ls[g.Intn(4)] = g.Len8(20) // one of the four length-prefixed strings may be long
+		a, u, pw, pa := g.Raw(ls[0]), g.Raw(ls[1]), g.Raw(ls[2]), g.Raw(ls[3])
 		add("P0x9206", "P0x9206", 0x9206, V13, &model.P0x9206{FTPAddrLen: byte(len(a)), FTPAddr: a, Port: g.U16(), UsernameLen: byte(len(u)), Username: u, PasswordLen: byte(len(pw)), Password: pw, FileUploadPathLen: byte(len(pa)), FileUploadPath: pa, ChannelNo: g.U8(), StartTime: g.TS(), EndTime: g.TS(), AlarmFlag: g.U64(), MediaType: g.U8(), StreamType: g.U8(), MemoryPosition: g.U8(), TaskExecuteCondition: g.U8()}, func() TwoWay { return &model.P0x9206{} })
 	}
 	add("P0x9207", "P0x9207", 0x9207, V13, &model.P0x9207{RespondSerialNumber: g.U16(), UploadControl: g.U8()}, func() TwoWay { return &model.P0x9207{} })
